@@ -16,7 +16,7 @@ theorem guards_as_extracted :
     httpPutIsDisconnect = true ∧ wsPutIsDisconnect = true ∧ wsSendClosedGuard = true ∧ httpExitClosedGuard = true ∧
     httpStreamClosedLogsUnlessEnded = true ∧ httpLogGuardedClosed = true ∧ httpLogGuardedError = true ∧
     httpStateClosedBeforeLogClosed = true ∧ httpStateClosedBeforeLogError = true ∧ h11CloseStreamForgets = true ∧
-    h2CloseStreamPopsFirst = true := by decide
+    h2CloseStreamPopsFirst = true ∧ httpSendsBeforeStateClosedClosed = true ∧ httpSendsBeforeStateClosedError = true := by decide
 
 /-- **disconnect_at_most_once**: at every moment of every run, at most one disconnect has been handed to an instance
     and nothing was handed over after it -/
@@ -163,6 +163,13 @@ example : (run (init {}) [.read, .head {}, .body, .needData, .readEof, .protoErr
       .appSend 0 (.start false), .appSend 0 (.body false true), .appExit 0, .handlerExit]).map
     (fun s => ((s.inst 0).discPuts, (s.inst 0).access, s.doneAt.isSome)) = some (1, 1, true) := by decide
 
+/-- the peer resets at the k-th write of a streamed response (head, chunk, terminator), on either worker: still exactly
+    one access record and one disconnect - `self.state = CLOSED` comes after the sends, so the close that happens *during*
+    the send of the response end still finds the request unlogged -/
+def resetAtWrite (k : Nat) : List Op :=
+  [.read, .head {}, .eom, .needData, .failAfter k, .appSend 0 (.start false), .appSend 0 (.body true true), .appSend 0 (.body false true)]
+example : ([1, 2, 3].map fun k => (run (init {}) (resetAtWrite k)).map (fun s => ((s.inst 0).access, (s.inst 0).discPuts, (s.inst 0).closed))) =
+    [some (1, 1, true), some (1, 1, true), some (1, 1, true)] := by decide
 /-- F08 (known): application gone without reading, queue full: the closer's `put(disconnect)` blocks for ever - the
     handler can never exit, although the disconnect has been handed over exactly once -/
 def f08 : List Op := [.read, .head {}, .body, .body, .needData, .appExit 0, .readEof, .connClosed]
